@@ -206,10 +206,12 @@ def write_replay(prop, m, unit_r, extra=None):
     path = os.path.join(REPLAYS, name)
     ub = unit_r['ub']
     item = None
-    for ex in ub.extracts:
-        if ex['owner'] == m['owner']:
-            item = {k: ex[k] for k in ('file', 'path', 'src_line_start', 'src_line_end', 'sha256')}
-    clause = next((c for c in ub.clauses if c.id == m['obligation']), None)
+    clause = None
+    if ub is not None:
+        for ex in ub.extracts:
+            if ex['owner'] == m['owner']:
+                item = {k: ex[k] for k in ('file', 'path', 'src_line_start', 'src_line_end', 'sha256')}
+        clause = next((c for c in ub.clauses if c.id == m['obligation']), None)
     doc = {
         'property': prop,
         'obligation': m['obligation'],
@@ -219,7 +221,7 @@ def write_replay(prop, m, unit_r, extra=None):
         'where_in_repo': m['where'],
         'source_text': m['src_text'],
         'repo_item': item,
-        'unit': ub.name,
+        'unit': ub.name if ub is not None else 'kani',
         'generated_file': unit_r.get('gen_path'),
         'checker_cmd': unit_r.get('cmd'),
         'verifier_output': m['rendered'],
@@ -247,13 +249,31 @@ def run_units_parallel(units, repo_root, seed, **kw):
     return res
 
 
+def kani_harnesses(prop, tier):
+    hs = load_json(os.path.join(CONTRACTS, 'kani_harnesses.json'), [])
+    return [h for h in hs if prop in h['props'] and (h.get('tier', 'quick') == 'quick' or tier == 'thorough')]
+
+
+def run_kani(prop, tier):
+    hs = kani_harnesses(prop, tier)
+    if not hs:
+        return [], {}
+    import kani_run
+    res = kani_run.run(REPO, [h['harness'] for h in hs])
+    return hs, res
+
+
 def check_property(prop, tier, seed, replay=None):
     t0 = time.time()
     units = {n: u for n, u in all_units().items() if prop in u['props']}
-    if not units:
+    khs = kani_harnesses(prop, tier)
+    if not units and not khs:
         print('no unit serves property %s' % prop, file=sys.stderr)
         return 2
-    results = run_units_parallel(units, REPO, seed)
+    with cf.ThreadPoolExecutor(max_workers=2) as kex:
+        kfut = kex.submit(run_kani, prop, tier)
+        results = run_units_parallel(units, REPO, seed) if units else {}
+        khs, kres = kfut.result()
     undecided = [(n, r) for n, r in results.items() if r['status'] == 'undecided']
     kf = known_findings()
     known = {(k['property'], k['obligation']): k for k in kf.get('findings', [])}
@@ -290,15 +310,38 @@ def check_property(prop, tier, seed, replay=None):
                 known_hit.append((k, m))
             else:
                 violations.append((m, r))
+    # Kani harnesses: complete ones are obligations (backend kani-cbmc); bounded ones are stand-ins, never counted as proved
+    kani_info = []
+    kani_undecided = []
+    for h in khs:
+        r = kres.get(h['harness'], {'status': 'undecided', 'failed_checks': [], 'output_tail': 'not run'})
+        oid = 'kani/' + h['harness']
+        rec = {'id': oid, 'kind': h['kind'], 'bound': h['bound'], 'function': h['function'], 'what': h['what'], 'status': r['status'],
+               'seconds': r.get('seconds'), 'cmd': r.get('cmd')}
+        kani_info.append(rec)
+        if h['kind'] == 'complete':
+            all_obs.append({'id': oid, 'kind': 'kani-complete', 'text': h['what'], 'desc': 'loop-free harness over the full input domain (%s)' % h['bound'],
+                            'discharged': r['status'] == 'ok', 'backend': 'kani-cbmc', 'solver_ms': (r.get('seconds') or 0) * 1000})
+        if r['status'] == 'fail':
+            k = known.get((prop, oid))
+            m = {'obligation': oid, 'props': h['props'], 'message': '; '.join('%s at %s:%s' % (c['check'], c['file'], c['line']) for c in r['failed_checks']) or 'Kani check failed',
+                 'owner': oid, 'where': ('%s:%s' % (r['failed_checks'][0]['file'], r['failed_checks'][0]['line'])) if r['failed_checks'] else None,
+                 'src_text': h['function'], 'rendered': r.get('output_tail', ''), 'kani': True, 'kind': 'fail'}
+            if k:
+                known_hit.append((k, m))
+            else:
+                violations.append((m, {'ub': None, 'cmd': r.get('cmd'), 'gen_path': 'harness/kani/verif_kani.rs', 'kani': h}))
+        elif r['status'] != 'ok':
+            kani_undecided.append((h['harness'], r.get('output_tail', '')[-600:]))
     rc = 0
     lines = []
     for k, m in known_hit:
         lines.append('KNOWN-FINDING: property=%s %s [%s]' % (prop, k['what'], k['obligation']))
-    if undecided and not violations:
+    if (undecided or kani_undecided) and not violations:
         rc = 2
     for m, r in violations:
         extra = None
-        if tier == 'thorough' or True:
+        if r.get('ub') is not None:
             extra = expand_failure(r, m, seed)
         path = write_replay(prop, m, r, extra)
         tail = 'no-failing-input-found'
@@ -314,11 +357,13 @@ def check_property(prop, tier, seed, replay=None):
             rc = trc
     wall = time.time() - t0
     write_evidence(prop, tier, seed, all_obs, trusted, functions, transformations, results, undecided, violations, known_hit,
-                   wall, solver_ms, thorough_info)
+                   wall, solver_ms, thorough_info, kani_info)
     for ln in lines:
         print(ln)
     for n, r in undecided:
         print('UNDECIDED unit=%s: %s' % (n, r['reason']), file=sys.stderr)
+    for n, t in kani_undecided:
+        print('UNDECIDED kani harness=%s: %s' % (n, t), file=sys.stderr)
     if rc == 0:
         nd = sum(1 for o in all_obs if o['discharged'])
         print('OK property=%s obligations=%d discharged=%d units=%s wall=%.1fs' % (prop, len(all_obs), nd, ','.join(sorted(units)), wall))
@@ -341,7 +386,7 @@ def expand_failure(r, m, seed):
 
 
 def write_evidence(prop, tier, seed, obs, trusted, functions, transformations, results, undecided, violations, known_hit, wall,
-                   solver_ms, thorough_info):
+                   solver_ms, thorough_info, kani_info=None):
     os.makedirs(EVID, exist_ok=True)
     meta = prop_meta(prop)
     n = len(obs)
@@ -372,14 +417,15 @@ def write_evidence(prop, tier, seed, obs, trusted, functions, transformations, r
             'functions_under_contract': functions,
             'obligation_list': [{'id': o['id'], 'kind': o['kind'], 'discharged': o['discharged'], 'backend': o['backend'],
                                  'solver_ms': o.get('solver_ms')} for o in obs],
-            'backends': {'verus-z3': n},
+            'backends': {'verus-z3': sum(1 for o in obs if o['backend'] == 'verus-z3'), 'kani-cbmc': sum(1 for o in obs if o['backend'] == 'kani-cbmc')},
+            'kani_harnesses': kani_info or [],
             'solver_ms_total': round(solver_ms, 1),
             'extraction_transformations': transformations,
             'units': {nm: {'status': r['status'], 'reason': r.get('reason'), 'wall_s': round(r.get('wall_s', 0), 2),
                            'verus_results': r.get('verus_results')} for nm, r in results.items()},
             'known_findings_still_present': [k['obligation'] for k, m in known_hit],
             'not_decided': meta.get('not_decided', []),
-            'bounded_standins': (thorough_info or {}).get('bounded_standins', []),
+            'bounded_standins': [k for k in (kani_info or []) if k['kind'] == 'bounded'],
             'thorough': thorough_info,
             'explanation': meta.get('explanation', ''),
         },
